@@ -3,6 +3,7 @@ import CookModel.Driver.Convert
 import CookModel.Driver.Scale
 import CookModel.Driver.Syntax
 import CookModel.Driver.Aisle
+import CookModel.Driver.StdMeta
 /- Registry of line-protocol handlers. One line per area. -/
 namespace Cook.Driver
 def handlers : List (List String → Option String) := [
@@ -10,6 +11,7 @@ def handlers : List (List String → Option String) := [
   handleConvert,
   handleScale,
   handleSyntax,
-  handleAisle
+  handleAisle,
+  handleStdMeta
 ]
 end Cook.Driver
